@@ -103,9 +103,23 @@ type Sim struct {
 	// (the harness sets it while a client request is in flight).
 	InFlight       int
 	SwitchInFlight uint64
+	skipped        int
 	TimeAdvances   uint64
 	DeadlockStacks string
 }
+
+// GlobalMaxPreempt (>= 0) caps the number of preemptive switches of every
+// simulation in this process (used when minimising a failing schedule).
+var GlobalMaxPreempt = -1
+
+// GlobalSkipPreempt suppresses the first K preemptive switches of every
+// simulation (the minimiser's other knob: together they leave a window).
+var GlobalSkipPreempt = 0
+
+// MaxPreemptSeen is the largest number of preemptions any simulation since
+// the last reset performed (reported with a violation so that the minimiser
+// knows the search range).
+var MaxPreemptSeen int
 
 // DebugStacks makes a deadlock capture all goroutine stacks.
 var DebugStacks bool
@@ -150,6 +164,9 @@ func Run(cfg Config, root func()) *Sim {
 		}
 	}
 	S = nil
+	if int(s.Preempt) > MaxPreemptSeen {
+		MaxPreemptSeen = int(s.Preempt)
+	}
 	return s
 }
 
@@ -333,11 +350,20 @@ func (s *Sim) yield(site string) {
 	if s.cfg.PreemptPct <= 0 {
 		return
 	}
+	// minimisation: after the preemption budget is used up the rest of the run
+	// is "boring" (the current task keeps running until it blocks)
+	if GlobalMaxPreempt >= 0 && int(s.Preempt) >= GlobalMaxPreempt {
+		return
+	}
 	if s.Tape.Next(100) < 100-s.cfg.PreemptPct {
 		return
 	}
 	r := s.runnable(s.cur)
 	if len(r) == 0 {
+		return
+	}
+	if s.skipped < GlobalSkipPreempt {
+		s.skipped++ // minimisation: the first K preemptions are suppressed
 		return
 	}
 	next := r[s.Tape.Next(len(r))]
